@@ -241,6 +241,8 @@ def run_job(sess, job):
             raise Undecided('cbmc gave no result list (rc=%s): %s' % (rc, ' | '.join(msgs[-4:])[-800:]))
         if any('ignoring' in m and ('forall' in m or 'exists' in m) for m in msgs):
             raise Undecided('the SAT back end ignored a quantifier')
+        if any(r.get('status') == 'ERROR' for r in results):
+            raise Undecided('cbmc reported ERROR for its properties (solver back end failed, most likely the memory limit): ' + ' | '.join(msgs[-3:])[-400:])
         obs = [Obligation(job.name, r) for r in results]
         classify(job, obs, res)
         res['obligations'] = obs
